@@ -84,8 +84,38 @@ def gen_ewd_cases(rng, N, nmax=6, viz_share=0.25, mag=4, modes=(False, True)):
     return out
 
 
+def gen_chain_debt_cases(rng, N, modes=(False, True), viz_share=0.2):
+    """the stratum in which incomplete debt concentration changes the *verdict*: chain-like
+    multigraphs, total degree 0..g-1, heavy debt on several adjacent vertices"""
+    out = []
+    for i in range(N):
+        n = rng.randint(3, 6)
+        E = {}
+        for v in range(n - 1):
+            E[(v, v + 1)] = rng.randint(1, 4)
+        if rng.random() < 0.3:
+            a, b = sorted(rng.sample(range(n), 2))
+            E[(a, b)] = E.get((a, b), 0) + rng.randint(1, 2)
+        perm = list(range(n))
+        rng.shuffle(perm)
+        E = {(min(perm[a], perm[b]), max(perm[a], perm[b])): m for (a, b), m in E.items()}
+        g = {"n": n, "edges": gen.present_edges(rng, E), "_kind": "chainmulti", "_genus": gen.genus_of(n, E)}
+        mag = rng.choice([3, 5, 8])
+        d = [rng.randint(-2 * mag, mag) for _ in range(n)]
+        target = rng.randint(0, max(0, g["_genus"] - 1))
+        j = rng.randrange(n)
+        d[j] += target - sum(d)
+        for opt in modes:
+            s = dict(g)
+            s.update(op="ewd", deg=d, opt=opt, viz=(rng.random() < viz_share),
+                     _band=gen.band_of(sum(d), g["_genus"]), _debt="chainheavy")
+            out.append(s)
+    return out
+
+
 def c01_generate(rng, tier):
-    scns = gen_ewd_cases(rng, count(tier, 300, 4000), nmax=count(tier, 6, 8))
+    scns = gen_ewd_cases(rng, count(tier, 250, 4000), nmax=count(tier, 6, 8))
+    scns += gen_chain_debt_cases(rng, count(tier, 100, 2000))
     for s in scns:
         s["_cmp"] = ["verdict"]
     return scns
@@ -109,3 +139,55 @@ PROPS["C01"] = {
     "rule": "random + named-family connected multigraphs (n<=6 quick / 8 thorough, multiplicities<=4, edges shuffled/flipped/split), divisors stratified by degree band x debt pattern, both modes, recording on for a share",
     "theorems": ["ewd_plain_verdict_exact"],
 }
+
+
+# ============================================================================ object machines
+import genhist  # noqa: E402
+
+
+def hist_nontrivial(rec):
+    s = rec["scn"]
+    return len(s.get("ops", s.get("sops", s.get("queries", [])))) >= 3 and s.get("n", 0) >= 2 and isinstance(rec["lean"], dict) and rec["lean"].get("ctor") != "ERR"
+
+
+def hist_strata(rec):
+    s = rec["scn"]
+    labs = [f"n={s.get('n')}", f"kind={s.get('_kind')}"]
+    for o in s.get("ops", s.get("sops", [])):
+        labs.append(f"op={o[0]}")
+    l = rec["lean"]
+    if isinstance(l, dict):
+        if l.get("ctor") == "ERR":
+            labs.append("ctor=ERR")
+        for st in l.get("steps", []):
+            if st.get("r") == "ERR" or st.get("ok") is False:
+                labs.append("refused-op")
+    return labs
+
+
+def simple(pid, genf, quick, thorough, rule, theorems, nontriv_rule, **kw):
+    def generate(rng, tier):
+        return genf(rng, count(tier, quick, thorough), **({k: v[1] if tier == "thorough" else v[0] for k, v in kw.items()}))
+    NONTRIVIAL_RULE[pid] = nontriv_rule
+    PROPS[pid] = {"generate": generate, "strata": hist_strata, "nontrivial": hist_nontrivial, "rule": rule, "theorems": theorems}
+
+
+simple("C13", genhist.gen_graph_hist, 500, 8000,
+       "graph histories: constructor (possibly refused) then up to 12/40 add_edge / add_edges / get_valence / remove_vertex requests, ~25% invalid (loop, non-positive multiplicity, unknown endpoint), both endpoint orders, repeated pairs; observables after every step: to_dict, every cached valence, total_valence, genus",
+       ["history_invariant", "constructed_wf", "genus_is_E_minus_V_plus_one", "accepted_add", "refused_add_unchanged", "addEdges_prefix", "removeVertex_wf"],
+       "non-trivial: >=3 operations on >=2 vertices with an accepted constructor", maxops=(12, 40))
+simple("C05", genhist.gen_div_hist, 500, 8000,
+       "divisor/configuration histories: up to 25/100 lend, borrow, set_fire, chip_transfer requests through CFDivisor and CFConfig (~20% invalid); observables after every step: every degree, cached total, is_effective",
+       ["lend_is_laplacian_column", "borrow_inverse", "set_fire_eq_sequential", "fire_all_is_identity", "moves_commute", "history_conserves", "constructor_total"],
+       "non-trivial: >=3 operations on >=2 vertices", maxops=(25, 100), big=(False, True))
+simple("C12", genhist.gen_div_arith, 500, 8000,
+       "pairs/triples of divisors (magnitudes up to 2^70), scalars up to 2^70, second operand on the same graph object / an equal copy / other edges / another vertex set; observables: +, -, neg, k*, ==, chip, zero, nested sums, operand digests afterwards",
+       ["add_vertexwise", "add_comm'", "add_assoc'", "add_zero'", "add_neg'", "smul_smul", "total_additive", "chip_is_unit", "unit_decomposition", "eq_iff", "mismatch_rejected"],
+       "non-trivial: n>=2")
+PROPS["C12"]["nontrivial"] = lambda rec: rec["scn"].get("n", 0) >= 2
+PROPS["C12"]["strata"] = lambda rec: [f"n={rec['scn'].get('n')}", "second=" + ("othervset" if rec["scn"].get("names2") is not None else "otheredges" if rec["scn"].get("edges2") is not None else "sameobject")]
+simple("C06", genhist.gen_lap, 400, 6000,
+       "Laplacian matrix / reduced matrix / entry queries; scripts built by constructor + set/update/get histories (10% unknown names); apply with entries up to 2^70 (products beyond 64 bit); observables: all entries, script after every step, apply result with type tags and JSON acceptance, additivity, operand digests",
+       ["laplacian_symmetric", "row_sums_zero", "diagonal_is_valence", "offdiagonal_is_minus_multiplicity", "apply_eq_spec", "apply_additive", "apply_eq_sequential_moves", "script_set", "script_update"],
+       "non-trivial: n>=2 and at least 3 script operations")
+PROPS["C06"]["strata"] = lambda rec: [f"n={rec['scn'].get('n')}", f"mag={rec['scn'].get('_mag')}"]
